@@ -975,7 +975,7 @@ def combine_cases(draw):
         full = draw(st.sampled_from(allb))
         rest = [t for t in allb if t != full]
         if P > 1:
-            case['pone'] = [list(t) for t in rest if draw(st.booleans())]
+            case['pone'] = [list(t) for t in rest if draw(st.booleans())] or [list(draw(st.sampled_from(rest)))]
         if D > 1:
             low = [[t[0], t[1], draw(st.integers(1, D - 1))] for t in rest if draw(st.sampled_from([False, False, True]))]
             if low and KF.is_open(KF_COMBINE_MIXED_D):
